@@ -366,6 +366,35 @@ macro_rules! c05_family {
             kani::cover!(true);
         }
 
+        /// Equality is observational: two vectors with the same width, length
+        /// and elements are equal whatever their histories left in the
+        /// storage beyond `len * w` (stale bits after pop / resize / clear).
+        #[kani::proof]
+        #[kani::unwind($EQUNW)]
+        pub fn eq_ignores_stale() {
+            let (a, w, len) = any_arr();
+            let b: [W; N] = kani::any();
+            let bl = len * w;
+            let mut k = 0;
+            while k < N {
+                if B * k >= bl {
+                    // unrelated storage
+                } else if bl - B * k < B {
+                    let m: W = (1 as W).wrapping_shl((bl - B * k) as u32).wrapping_sub(1);
+                    kani::assume(a[k] & m == b[k] & m);
+                } else {
+                    kani::assume(a[k] == b[k]);
+                }
+                k += 1;
+            }
+            let x = unsafe { Arr::from_raw_parts(a, w, len) };
+            let y = unsafe { Arr::from_raw_parts(b, w, len) };
+            assert!(x == y);
+            assert!(y == x);
+            kani::cover!(len > 1 && bl % B != 0 && a[bl / B] != b[bl / B], "stale bits in the last word differ");
+            kani::cover!(len > 0 && bl.div_ceil(B) < N && a[N - 1] != b[N - 1], "spare words differ");
+        }
+
         /// Constructors: `new`, `new_unaligned`, `with_capacity` with a symbolic
         /// width and a concrete length.
         #[kani::proof]
